@@ -23,6 +23,8 @@
 //   - CONC-2    Add(1) dominating go in the iteration (or Add(workers) before the loop); worker
 //     defers/always calls Done; Wait dominates every return reachable from the spawn and every use of
 //     the result array's variable.
+//   - CONC-7    :add-done-pairing — every Add(1) in the spawn loop is followed by the go statement on every
+//     path through the iteration (Add(workers) up front: the go dominates every latch).
 //   - CONC-3    stores in worker code go to worker-local memory or dst[idx]; no map updates; no capture
 //     of a variable the spawn loop re-assigns (go.mod < 1.22).
 //   - SEQ-1     :shortcut (workers==1 returns the sequential method on the own receiver/arguments, or no
@@ -49,6 +51,8 @@
 //     channel messages are looked through; loop variables named by their range); executed once per job;
 //     :job-operands (no common callee: message fields = operands of the sequential per-item call);
 //     :merge (same fold over the per-block results).
+//     Straight-line in-package helpers are inlined before comparing.
+//   - SEQ-4     :accumulate — block cells are written with the same operator (+=) as in the sequential sibling.
 //   - AXIS-1/2  in canvas.go: vector3.New slots, VectorInt literal fields and index(x,y,z) arguments must
 //     not receive a value derived only from another axis (sources: VectorInt.X/Y/Z, vector3 X()/Y()/Z());
 //     comparisons must not mix single axes.
